@@ -1,4 +1,5 @@
 import SmtpV.Props.C17
+import SmtpV.Props.C17Client
 import SmtpV.Props.C17Server
 #print axioms SmtpV.Props.C17.C17_roundtrip
 #print axioms SmtpV.Props.C17.C17_roundtrip_single
@@ -10,3 +11,4 @@ import SmtpV.Props.C17Server
 #print axioms SmtpV.Props.C17.C17_server_passes_mail_plain_error
 #print axioms SmtpV.Props.C17.C17_server_passes_rcpt_error
 #print axioms SmtpV.Props.C17.C17_server_passes_data_error
+#print axioms SmtpV.Props.C17.C17_lmtp_hello_reports_refusal
